@@ -282,7 +282,7 @@ func joinLines(lines [][]byte) []byte {
 func runC04(cfg *config) *Report {
 	rep := newReport("C04", cfg.tier, cfg.seed)
 	r := newRng(cfg.seed + 4000)
-	rep.Rule = "valid generated files (newline-delimited ASCII, one record per line) x EVERY single structural fault: delete each record, duplicate each, cut at each boundary, insert a valid record of each of the 21 kinds at each position, move each record to each other position (quick tier: all deletes/duplicates/cuts, 1/3 of inserts, 1/6 of moves); real Reader verdict and census of the returned File compared with the X9 nesting automaton's attribution of the input records and with the Lean reader model; non-trivial = the fault changes the record sequence; distinct by line sequence"
+	rep.Rule = "valid generated files (ASCII, one record per line, framed by newlines and - the same faulted sequences - by length prefixes) x EVERY single structural fault: delete each record, duplicate each, cut at each boundary, insert a valid record of each of the 21 kinds at each position, move each record to each other position (quick tier: all deletes/duplicates/cuts, 1/3 of inserts, 1/6 of moves); real Reader verdict and census of the returned File compared with the X9 nesting automaton's attribution of the input records and with the Lean reader model; non-trivial = the fault changes the record sequence; distinct by line sequence"
 	nFiles := 3
 	if cfg.tier == "thorough" {
 		nFiles = 25
@@ -320,62 +320,76 @@ func runC04(cfg *config) *Report {
 		cases = append(cases, faultCase{lines, "no fault", "none"})
 		cases = append(cases, singleFaults(lines, pool, kinds, cfg.tier == "thorough", r)...)
 	}
-	var ops []string
-	impl := make([]string, len(cases))
-	for i, c := range cases {
-		in := joinLines(c.lines)
-		f, rerr, p := realRead(in, encCfg{}, 1<<22)
-		if p != nil {
-			rep.violate(Violation{Key: "C04:reader-panic:" + c.shape, What: fmt.Sprint("Reader panicked: ", p), Replay: map[string]any{"fault": c.desc, "bytes": hx(in)}})
-			impl[i] = "panic"
-		} else {
-			impl[i] = canonErr(rerr) + " # " + dumpFile(&f)
-		}
-		ops = append(ops, fmt.Sprintf("read\t0\t0\t0\t%s\t%s", now, hx(in)))
-	}
-	got, err := leanParallel(cfg.driver, ops, runtime.NumCPU())
-	if err != nil {
-		fatal("driver: %v", err)
-	}
-	for i, c := range cases {
-		rep.Evaluations++
-		rep.CorrOps++
-		rep.count("fault:" + strings.SplitN(c.shape, ":", 2)[0])
-		ks := kindsOfLines(c.lines)
-		rep.nontrivial(strings.Join(ks, "") + fmt.Sprint(len(c.lines)))
-		if impl[i] == "panic" {
-			continue
-		}
-		if impl[i] != got[i] {
-			rep.CorrDisagree++
-			rep.violate(Violation{Key: "C04:corr:read", What: "model reader and Reader.Read disagree on a faulted record sequence",
-				Replay: map[string]any{"fault": c.desc, "kinds": strings.Join(ks, " "), "bytes": hx(joinLines(c.lines)), "implementation": impl[i][:min(len(impl[i]), 300)], "model": got[i][:min(len(got[i]), 300)]}, NoInput: true})
-		}
-		parts := strings.SplitN(impl[i], " # ", 2)
-		verdict := parts[0]
-		want, wellNested := attribute(ks)
-		if verdict == "ok" {
-			rep.count("accepted")
-			have := censusOfDump(parts[1])
-			if sortedPlaces(have) != sortedPlaces(want) {
-				key := "C04:silent-loss:" + c.shape
-				if lost := lostPlaces(want, have); len(lost) > 0 && allKind(lost, "01") && len(have)+len(lost) == len(want) {
-					// the only records not represented are file headers beyond the first
-					key = "C04:silent-loss:duplicate-file-header"
-				}
-				rep.violate(Violation{Key: key,
-					What:   "Read returned no error but the returned File does not hold the input's records under the parents they followed (" + c.desc + ")",
-					Replay: map[string]any{"fault": c.desc, "input_kinds": strings.Join(ks, " "), "bytes": hx(joinLines(c.lines)), "input_census": sortedPlaces(want), "returned_census": sortedPlaces(have)}})
-			} else if !wellNested {
-				rep.violate(Violation{Key: "C04:accepted-out-of-hierarchy:" + c.shape,
-					What:   "Read accepted a record sequence that is out of hierarchy (" + c.desc + ")",
-					Replay: map[string]any{"fault": c.desc, "input_kinds": strings.Join(ks, " "), "bytes": hx(joinLines(c.lines))}})
+	for _, enc := range []encCfg{{}, {LP: true}} {
+		frame := func(lines [][]byte) []byte {
+			if !enc.LP {
+				return joinLines(lines)
 			}
-		} else {
-			rep.count("rejected")
+			var b bytes.Buffer
+			for _, x := range lines {
+				b.Write([]byte{byte(len(x) >> 24), byte(len(x) >> 16), byte(len(x) >> 8), byte(len(x))})
+				b.Write(x)
+			}
+			return b.Bytes()
 		}
-		if i%701 == 0 {
-			rep.sample(map[string]any{"fault": c.desc, "kinds": strings.Join(ks, " "), "verdict": verdict})
+		var ops []string
+		impl := make([]string, len(cases))
+		for i, c := range cases {
+			in := frame(c.lines)
+			f, rerr, p := realRead(in, enc, 1<<22)
+			if p != nil {
+				rep.violate(Violation{Key: "C04:reader-panic:" + c.shape, What: fmt.Sprint("Reader panicked: ", p), Replay: map[string]any{"fault": c.desc, "enc": enc.String(), "bytes": hx(in)}})
+				impl[i] = "panic"
+			} else {
+				impl[i] = canonErr(rerr) + " # " + dumpFile(&f)
+			}
+			ops = append(ops, fmt.Sprintf("read\t%s\t0\t0\t%s\t%s", b01(enc.LP), now, hx(in)))
+		}
+		got, err := leanParallel(cfg.driver, ops, runtime.NumCPU())
+		if err != nil {
+			fatal("driver: %v", err)
+		}
+		for i, c := range cases {
+			rep.Evaluations++
+			rep.CorrOps++
+			rep.count("fault:" + strings.SplitN(c.shape, ":", 2)[0])
+			rep.count("framing:" + enc.String())
+			ks := kindsOfLines(c.lines)
+			rep.nontrivial(enc.String() + strings.Join(ks, "") + fmt.Sprint(len(c.lines)))
+			if impl[i] == "panic" {
+				continue
+			}
+			if impl[i] != got[i] {
+				rep.CorrDisagree++
+				rep.violate(Violation{Key: "C04:corr:read", What: "model reader and Reader.Read disagree on a faulted record sequence",
+					Replay: map[string]any{"fault": c.desc, "kinds": strings.Join(ks, " "), "enc": enc.String(), "bytes": hx(frame(c.lines)), "implementation": impl[i][:min(len(impl[i]), 300)], "model": got[i][:min(len(got[i]), 300)]}, NoInput: true})
+			}
+			parts := strings.SplitN(impl[i], " # ", 2)
+			verdict := parts[0]
+			want, wellNested := attribute(ks)
+			if verdict == "ok" {
+				rep.count("accepted")
+				have := censusOfDump(parts[1])
+				if sortedPlaces(have) != sortedPlaces(want) {
+					key := "C04:silent-loss:" + c.shape
+					if lost := lostPlaces(want, have); len(lost) > 0 && allKind(lost, "01") && len(have)+len(lost) == len(want) {
+						// the only records not represented are file headers beyond the first
+						key = "C04:silent-loss:duplicate-file-header"
+					}
+					rep.violate(Violation{Key: key,
+						What:   "Read returned no error but the returned File does not hold the input's records under the parents they followed (" + c.desc + ")",
+						Replay: map[string]any{"fault": c.desc, "input_kinds": strings.Join(ks, " "), "enc": enc.String(), "bytes": hx(frame(c.lines)), "input_census": sortedPlaces(want), "returned_census": sortedPlaces(have)}})
+				} else if !wellNested {
+					rep.violate(Violation{Key: "C04:accepted-out-of-hierarchy:" + c.shape,
+						What:   "Read accepted a record sequence that is out of hierarchy (" + c.desc + ")",
+						Replay: map[string]any{"fault": c.desc, "input_kinds": strings.Join(ks, " "), "enc": enc.String(), "bytes": hx(frame(c.lines))}})
+				}
+			} else {
+				rep.count("rejected")
+			}
+			if i%701 == 0 {
+				rep.sample(map[string]any{"fault": c.desc, "kinds": strings.Join(ks, " "), "verdict": verdict})
+			}
 		}
 	}
 	_ = icl.NewFile
